@@ -330,7 +330,8 @@ func (p *Parser) parseComparisonExpression() (ast.Expression, error) {
 			}
 			p.advance() // Consume )
 
-			if strings.EqualFold(quantifier, "ANY") {
+			// SOME is the standard's synonym of ANY
+			if strings.EqualFold(quantifier, "ANY") || strings.EqualFold(quantifier, "SOME") {
 				return &ast.AnyExpression{
 					Expr:     left,
 					Operator: operator,
